@@ -37,6 +37,7 @@ DEFAULT_PROFILE = {
     "p_no_options": 0.04,
     "p_soc_bias": 0.0,
     "p_strict_dims": 0.0,
+    "p_zero_tol": 0.0,
     "force_n": None,
     "p_narrow_box": 0.0,
     "maxfev_hi": 90,
@@ -389,6 +390,12 @@ def gen_options(rng, stmt, prof):
         o["feasibility_tol"] = rng.pick([0.0, 1e-12, 1e-8, 1e-4, 1e-2])
     if rng.chance(prof["p_target"]):
         o["target"] = rng.nice(-3, 6)
+    if rng.chance(prof.get("p_zero_tol", 0.0)):
+        # the edge of the domain of feasibility_tol, on a run long enough to come within 1e-8 of a boundary
+        o["feasibility_tol"] = 0.0
+        o["radius_final"] = min(o.get("radius_final", 1e-6), 1e-6)
+        o["maxfev"] = max(o.get("maxfev", 0), 150)
+        o.pop("maxiter", None)
     return o
 
 
@@ -462,7 +469,8 @@ def gen_statement(rng, prof=None):
     stmt["constraints_form"] = rng.pick(["list", "list", "tuple", "single"])
     # callback
     if rng.chance(prof["p_callback"]):
-        stmt["callback"] = {"style": rng.pick(["pos", "kw", "obj", "objkw", "partial", "partialkw", "lambda", "posdefault"]),
+        stmt["callback"] = {"style": rng.pick(["pos", "kw", "obj", "objkw", "partial", "partialkw", "lambda", "posdefault",
+                                               "objfalsy"]),
                             "mutate": rng.chance(0.25), "stop_at": None}
     else:
         stmt["callback"] = None
@@ -554,3 +562,7 @@ def gen_fault_plan(rng, stmt, n_evals, linalg_calls=0, level=None, allow_linalg=
     if rng.chance(0.08):
         plan.append({"kind": "cache_off"})
     return plan
+
+
+def poison_knob(rng):
+    return {"kind": "poison_empty", "pattern": rng.randrange(5)}
